@@ -21,7 +21,7 @@ spec/Mempool.tla     model of client/txpool index by index (pool, SpentOutputs, 
 import json, os, re, copy, threading, random, zlib
 from vf import Infra
 
-FAMS = ["FamChain", "FamDiamond", "FamOrphan"]
+FAMS = ["FamChain", "FamDiamond", "FamOrphan", "FamConfl"]
 KNOWN_SIG = "C12:InputsSpendable:replacement-spends-output-of-replaced-tx"
 HANG_SIG = "C12:hang:txAccepted-retries-forever"
 MAX_DEATHS = 10     # per driver chunk: every death costs a restart (a hang: the watchdog's patience as well)
@@ -116,6 +116,15 @@ def export_ops(tp, ctx, fam, blocks, undo, fgn, tag, simulate=None, depth=0, tim
         if key in seen:
             continue
         seen.add(key)
+        # the transactions of somebody else's block were usually offered to this node before: whatever it did with
+        # them (pooled, refused and kept in the reject cache, waiting), the block has to clean up after them
+        if rng.random() < 0.5:
+            rich = []
+            for o in ops:
+                if o["a"] == "MineForeign" and o["txs"]:
+                    rich += [{"a": "Submit", "t": t, "mode": "net", "k": 0, "txs": [], "d": 0, "blks": []} for t in o["txs"]]
+                rich.append(o)
+            ops = rich
         for o in ops:       # "trusted" and the operator's own transactions differ from "net" only outside the model
             if o["a"] == "Submit" and o["mode"] == "net" and o["t"] not in badscript and rng.random() < 0.25:
                 o["mode"] = "trusted"
@@ -259,7 +268,7 @@ class Validator:
         self.ctx, self.tp, self.tag, self.model, self.evict, self.bulk = ctx, tp, tag, model_path, evict, bulk
         self.scen_json = scen_json
         m = json.load(open(model_path))
-        self.scn = {t["id"]: t for t in m["txs"]}
+        self.scn = {int(t): d for t, d in m["tx"].items()}
         self.sc = self_conflicting(self.scn)
         self.known_samples = []
         self.events = 0
@@ -512,7 +521,7 @@ def run(ctx):
 
     # ---- 2. operation sequences of the bounded model, performed on the real pool, recordings validated
     gen_bounds = (1, 1, 1) if quick else (2, 2, 2)
-    cap = 400 if quick else 6000
+    cap = 250 if quick else 5000
     ejobs = [(f, m) for f in FAMS for m in ("bfs", "sim")]
     per = max(1, nproc // len(ejobs)) if quick else max(2, nproc // 3)
 
@@ -523,7 +532,7 @@ def run(ctx):
             if ntrans != r.generated - 1:
                 raise Infra("export %s: %d lines for %s generated states" % (fam, ntrans, r.generated))
         else:
-            r, scen, lines, ntrans = export_ops(tp, ctx, fam, 3, 2, 2, tag=fam + "-sim", simulate="num=%d" % (40 if quick else 600), depth=12)
+            r, scen, lines, ntrans = export_ops(tp, ctx, fam, 3, 2, 2, tag=fam + "-sim", simulate="num=%d" % (30 if quick else 600), depth=12)
         if not lines:
             raise Infra("export %s/%s produced no operation sequences\n%s" % (fam, mode, r.tail))
         if len(lines) > cap:
@@ -565,6 +574,25 @@ def run(ctx):
         if first_random is None and tv:
             first_random = res
     ctx.log("random histories: %d universes x %d traces x %d operations performed and validated" % (nuni, ntr, nops))
+
+    # ---- 3b. rank run: about 50 insertions into the same gap of the incrementally kept sorted list (the rank space
+    # between two neighbours is used up and the list has to renumber), two-parent children after each one
+    d = os.path.join(ctx.scratch, "rankrun")
+    os.makedirs(d, exist_ok=True)
+    sp, op = os.path.join(d, "scen.json"), os.path.join(d, "ops.ndjson")
+    nrk, nrt = (52, 2) if quick else (64, 4)
+    p = ctx.run([binp, "gen", "-seed", str(ctx.seed * 1000 + 997), "-ntx", "4", "-traces", str(nrt), "-ops", "0", "-rankrun", str(nrk),
+                 "-scenario", sp, "-opsout", op], timeout=600)
+    if p.returncode != 0:
+        raise Infra("mempool gen failed: " + p.stderr[-2000:])
+    rst = {}
+    tv, evs, _ = drive_and_validate(ctx, tp, binp, open(sp).read(), [json.loads(l) for l in open(op)], "rankrun", nrt, stats=rst)
+    traces_validated += tv
+    events_validated += evs
+    ctx.cov["rank_run_tier"] = {"insertions_per_history": nrk, "max_pool": rst.get("max_pool"), "events": evs}
+    if not ctx.violations and (rst.get("max_pool") or 0) < nrk:
+        raise Infra("rank run: the pool never held the run (%s transactions)" % rst.get("max_pool"))
+    ctx.log("rank-run tier: %d traces, %d events, largest pool %s transactions" % (tv, evs, rst.get("max_pool")))
 
     # ---- 4. thorough: an 11 MB pool (bulky transactions), size-limit eviction on the way
     if not quick:
